@@ -127,6 +127,24 @@ CHECKS.update({
              'strings and predicates is covered by the bounded family only; '
              'pyvc, z3.',
         ref='DESIGN.md section 4 C17'),
+    'C12': dict(
+        text='normalize_time, utcnow, utcnow_ts, set/clear_time_override, '
+             'advance_time_delta/seconds, is_older_than, is_newer_than, '
+             'is_soon, parse_isotime (exception flow), marshall_now / '
+             'unmarshall_time and TimeFixture proved on the real code against '
+             'an integer-microsecond model of datetime/timedelta/tz offsets '
+             '(symbolic instants, offsets -23:59:59..+23:59:59, real-valued '
+             'seconds): each clause of the property is an arithmetic identity '
+             'with the comparison operators as in the source (exact at the '
+             'equality boundary). Bounded stand-in: the real functions with '
+             'the real datetime/iso8601/zoneinfo over 400 seeded datetimes x '
+             'zones (incl. DST folds) x boundary second counts, which also '
+             'validates the model.',
+        note='A-DATETIME (the microsecond model of the datetime module; '
+             'timedelta(seconds=s) rounding to microseconds ignored), '
+             'A-ISO8601, fixtures.Fixture.addCleanup; OverflowError at the '
+             'ends of the datetime range is outside the model; pyvc, z3.',
+        ref='DESIGN.md section 4 C12'),
     'C10': dict(
         text='(1) Regular-language lemmas (z3 RegLan, translated on every run '
              'from the real pattern strings in UNIT_SYSTEM_INFO via CPython\'s '
